@@ -87,6 +87,8 @@ pub struct Recorder {
     pub market: Vec<(usize, i64)>,
     /// fills seen by the engine: (instrument, buy, price, quantity)
     pub fills: Vec<(usize, bool, Decimal, Decimal)>,
+    /// (trade id, order id) of those fills, in the same order
+    pub fill_ids: Vec<(String, String)>,
 }
 
 impl Processor<&MarketEvent<InstrumentIndex, DataKind>> for Recorder {
@@ -100,6 +102,7 @@ impl Processor<&AccountEvent> for Recorder {
     fn process(&mut self, e: &AccountEvent) {
         if let AccountEventKind::Trade(t) = &e.kind {
             self.fills.push((t.instrument.index(), t.side == Side::Buy, t.price, t.quantity));
+            self.fill_ids.push((t.id.0.to_string(), t.order_id.0.to_string()));
         }
     }
 }
@@ -115,6 +118,8 @@ pub struct Final {
     pub balances: Vec<Option<Decimal>>,
     /// per instrument: realised PnL of closed positions
     pub pnl: Vec<Decimal>,
+    /// per instrument: ids of the fills recorded against the open position
+    pub position_trades: Vec<Vec<String>>,
 }
 
 #[derive(Debug, Default)]
@@ -159,6 +164,7 @@ impl AlgoStrategy for TableStrategy {
             positions: state.instruments.0.values().map(|s| s.position.current.as_ref().map(|p| (p.side == Side::Buy, p.quantity_abs, p.price_entry_average))).collect(),
             balances: state.assets.0.values().map(|a| a.balance.as_ref().map(|b| b.value.total)).collect(),
             pnl: state.instruments.0.values().map(|s| s.tear_sheet.pnl_returns.pnl_raw).collect(),
+            position_trades: state.instruments.0.values().map(|s| s.position.current.as_ref().map(|p| p.trades.iter().map(|t| t.0.to_string()).collect()).unwrap_or_default()).collect(),
         });
         let ordinal = state.global.market.len();
         let mut opens = Vec::new();
@@ -566,7 +572,7 @@ impl Check for BacktestsPaused {
             }
             let together = logs[k].lock().unwrap();
             let (a, b) = (alone.last.as_ref().unwrap(), together.last.as_ref().unwrap());
-            if a.recorder.fills != b.recorder.fills || a.positions != b.positions || a.balances != b.balances || a.pnl != b.pnl {
+            if a.recorder.fills != b.recorder.fills || a.recorder.fill_ids != b.recorder.fill_ids || a.positions != b.positions || a.position_trades != b.position_trades || a.balances != b.balances || a.pnl != b.pnl {
                 bad!("concurrent-differs-from-alone", "backtest {k}: alone {a:?} vs among {} concurrent backtests {b:?}", tables.len());
             }
             // time-scaled ratios depend on the historical clock (wall-clock mixed in): compare the
@@ -721,6 +727,124 @@ impl Check for BacktestsInMemory {
     }
 }
 
+
+// ---------------------------------------------------------------------------------------------
+// system_audit_modes: the steps of backtest() with the audit stream switched on
+// ---------------------------------------------------------------------------------------------
+
+#[derive(Debug, Clone, Serialize, Deserialize)]
+pub struct SysCase {
+    pub events: Vec<EvGen>,
+    /// 0: audit disabled; 1: enabled, stream never taken; 2: taken, read for `read_ticks` ticks,
+    /// then dropped; 3: taken and read to the end by a task
+    pub audit: u8,
+    pub read_ticks: u16,
+}
+
+/// A backtest system assembled through `SystemBuild` exactly as `backtest()` does, but with
+/// `AuditMode::Enabled` and different audit consumers: whoever listens (or stops listening), the
+/// engine is fed the whole dataset before `shutdown_after_backtest` returns it.
+pub struct SystemAuditModes;
+
+impl Check for SystemAuditModes {
+    type Case = SysCase;
+    const NAME: &'static str = "system_audit_modes";
+
+    fn normalise(mut case: SysCase) -> SysCase {
+        for e in &mut case.events {
+            e.price_q = 1 + e.price_q % 1999;
+            e.lag_s = 0;
+        }
+        case
+    }
+
+    fn strategy(tier: Tier) -> BoxedStrategy<SysCase> {
+        let big = if tier == Tier::Quick { 700usize } else { 2500usize };
+        (
+            prop_oneof![1 => prop::collection::vec((0u8..3, 1u16..2000, prop::bool::weighted(0.05)), 1..40), 1 => prop::collection::vec((0u8..3, 1u16..2000, prop::bool::weighted(0.05)), 1..big)],
+            0u8..4,
+            prop_oneof![Just(0u16), 0u16..50, 0u16..2500],
+        )
+            .prop_map(|(ev, audit, read_ticks)| SysCase { events: ev.into_iter().map(|(inst, price_q, reconnecting)| EvGen { inst, price_q, reconnecting, lag_s: 0 }).collect(), audit, read_ticks })
+            .boxed()
+    }
+
+    fn eval(case: &SysCase) -> CaseReport {
+        use barter::{
+            EngineEvent,
+            engine::{clock::HistoricalClock, execution_tx::MultiExchangeTxMap},
+            execution::builder::{ExecutionBuild, ExecutionBuilder},
+            strategy::DefaultStrategy,
+            system::builder::{AuditMode, EngineFeedMode, SystemBuild},
+        };
+        let mut rep = CaseReport::new();
+        let bt = BtCase { two_exchanges: true, n_instruments: 3, events: case.events.clone(), tables: vec![vec![]], latency_ms: 0, fee_sel: 0, threads_sel: 0 };
+        let s = setup(&bt);
+        if s.trades.is_empty() || !matches!(s.dataset[0], MarketStreamEvent::Item(_)) {
+            return rep;
+        }
+        let audit_mode = case.audit % 4;
+        let rt = tokio::runtime::Builder::new_current_thread().enable_time().start_paused(true).build().expect("runtime");
+        let outcome: Result<Vec<(usize, i64)>, (String, String)> = rt.block_on(async {
+            let data = MarketDataInMemory::new(Arc::new(s.dataset.clone()));
+            let clock = data.time_first_event().await.map(HistoricalClock::new).map_err(|e| ("time-first-event".to_string(), format!("{e}")))?;
+            let market_stream = data.stream().await.map_err(|e| ("stream".to_string(), format!("{e}")))?;
+            let ExecutionBuild { execution_tx_map, account_channel, futures } = ExecutionBuilder::new(&s.indexed).build();
+            let mut state = s.state.clone();
+            state.trading = TradingState::Disabled;
+            let engine: Engine<HistoricalClock, BtState, MultiExchangeTxMap, DefaultStrategy<BtState>, DefaultRiskManager<BtState>> = Engine::new(clock, state, execution_tx_map, DefaultStrategy::default(), DefaultRiskManager::default());
+            let mut system = SystemBuild::<_, EngineEvent<DataKind>, _>::new(engine, EngineFeedMode::Stream, if audit_mode == 0 { AuditMode::Disabled } else { AuditMode::Enabled }, market_stream, account_channel, futures)
+                .init()
+                .await
+                .map_err(|e| ("system-init".to_string(), format!("{e}")))?;
+            let mut drainer = None;
+            match audit_mode {
+                2 => {
+                    let mut audit = system.take_audit().ok_or_else(|| ("audit-missing".to_string(), "audit enabled but take_audit() returned None".to_string()))?;
+                    for _ in 0..case.read_ticks {
+                        if tokio::time::timeout(Duration::from_secs(5), StreamExt::next(&mut audit.updates)).await.is_err() {
+                            break;
+                        }
+                    }
+                    drop(audit);
+                }
+                3 => {
+                    let mut audit = system.take_audit().ok_or_else(|| ("audit-missing".to_string(), "audit enabled but take_audit() returned None".to_string()))?;
+                    drainer = Some(tokio::spawn(async move { while StreamExt::next(&mut audit.updates).await.is_some() {} }));
+                }
+                _ => {}
+            }
+            let finished = tokio::time::timeout(Duration::from_secs(3600), tokio::spawn(system.shutdown_after_backtest())).await;
+            if let Some(d) = drainer {
+                d.abort();
+            }
+            match finished {
+                Err(_) => Err(("system-did-not-finish".to_string(), "shutdown_after_backtest did not return within an hour of virtual time".to_string())),
+                Ok(Err(join)) => Err(("system-panicked".to_string(), format!("shutdown_after_backtest panicked: {join}"))),
+                Ok(Ok(Err(join))) => Err(("system-task-failed".to_string(), format!("a system task failed: {join}"))),
+                Ok(Ok(Ok((engine, _audit)))) => Ok(engine.state.global.market.clone()),
+            }
+        });
+        let what = ["audit disabled", "audit enabled, stream never taken", "audit stream taken, read, then dropped", "audit stream read to the end"][audit_mode as usize];
+        match outcome {
+            Err((sig, msg)) => {
+                rep.fail(format!("system:{sig}"), format!("{what} ({} dataset items): {msg}", s.dataset.len()));
+                return rep;
+            }
+            Ok(seen) => {
+                if seen != s.trades {
+                    rep.fail("system:dataset-consumption", format!("{what}, {} ticks read before the consumer went away: the engine returned by shutdown_after_backtest saw {} market items, the dataset has {}; first difference at {:?}", case.read_ticks, seen.len(), s.trades.len(), seen.iter().zip(&s.trades).position(|(a, b)| a != b)));
+                    return rep;
+                }
+            }
+        }
+        rep.class(["audit_disabled", "audit_never_taken", "audit_taken_then_dropped", "audit_read_to_the_end"][audit_mode as usize]);
+        rep.class_if(s.dataset.len() > 512, "dataset_over_512");
+        rep.nontrivial = audit_mode != 0 && s.dataset.len() >= 20;
+        rep
+    }
+}
+
 // ---------------------------------------------------------------------------------------------
 
 #[derive(Debug, Clone, Serialize, Deserialize)]
@@ -819,7 +943,7 @@ impl Check for InMemoryData {
 }
 
 pub fn run(ctx: &mut Ctx) {
-    ctx.rule = "backtests_paused: datasets of 1..80|300 market items (public trades over 1..3 instruments on 1..2 mock exchanges, unique increasing times, 5% reconnect notices) served with a virtual gap of 2 x latency + 5 ms; 1..12|24 concurrent backtests, each strategy a table (market-item ordinal -> market order) firing once per ordinal and never on the last two ordinals; mock latency 0..49 ms, fee in {0, 0.1%, 1%}; tokio paused current-thread runtime; every backtest is judged against its own table (market items seen = dataset in order, fills, final balances/positions, summary) and the first six are re-run alone and compared. backtests_threads: same through multi-thread runtimes with 1/2/4/8 workers, the dataset's last item gated on all expected fills (20 s watchdog => skipped, 60 s => inconclusive). non-trivial = >= 4 concurrent backtests with >= 4 different tables, every backtest has >= 1 fill, dataset >= 20 items; distinct by hash of the case. in_memory_data: MarketDataInMemory stream()/time_first_event on generated event lists; 1..4 streams taken from the one dataset (and a clone) polled in a generated interleaving must each yield the whole dataset (non-trivial = >= 2 streams, >= 3 switches). backtests_in_memory: 1..8 concurrent backtests over the crate's MarketDataInMemory (datasets 1..40 or 1..700|2500 items, zero gap, paused current-thread runtime), one item in five lags 1..900 s behind its place (timestamps not monotonic), judged on consumption only: each engine saw every market item and reconnect notice once, in order; then one backtest alone over the same shared data.".into();
+    ctx.rule = "backtests_paused: datasets of 1..80|300 market items (public trades over 1..3 instruments on 1..2 mock exchanges, unique increasing times, 5% reconnect notices) served with a virtual gap of 2 x latency + 5 ms; 1..12|24 concurrent backtests, each strategy a table (market-item ordinal -> market order) firing once per ordinal and never on the last two ordinals; mock latency 0..49 ms, fee in {0, 0.1%, 1%}; tokio paused current-thread runtime; every backtest is judged against its own table (market items seen = dataset in order, fills, final balances/positions, summary) and the first six are re-run alone and compared. backtests_threads: same through multi-thread runtimes with 1/2/4/8 workers, the dataset's last item gated on all expected fills (20 s watchdog => skipped, 60 s => inconclusive). non-trivial = >= 4 concurrent backtests with >= 4 different tables, every backtest has >= 1 fill, dataset >= 20 items; distinct by hash of the case. in_memory_data: MarketDataInMemory stream()/time_first_event on generated event lists; 1..4 streams taken from the one dataset (and a clone) polled in a generated interleaving must each yield the whole dataset (non-trivial = >= 2 streams, >= 3 switches). backtests_in_memory: 1..8 concurrent backtests over the crate's MarketDataInMemory (datasets 1..40 or 1..700|2500 items, zero gap, paused current-thread runtime), one item in five lags 1..900 s behind its place (timestamps not monotonic), judged on consumption only: each engine saw every market item and reconnect notice once, in order; then one backtest alone over the same shared data. system_audit_modes: the steps of backtest() through SystemBuild with the audit stream disabled / enabled and never taken / taken, read for 0..2500 ticks and dropped / read to the end (datasets 1..40 or 1..700|2500): the engine returned by shutdown_after_backtest saw the whole dataset. The solo-vs-concurrent comparison includes the fills' trade / order ids and the open positions' fill ids.".into();
     ctx.assumptions = vec![
         "strategies decide from the number of market items seen only, once per ordinal (decisions independent of the timing of execution responses), and place nothing on the last two ordinals".into(),
         "timestamps are set aside (the historical clock mixes in wall-clock time)".into(),
@@ -833,6 +957,8 @@ pub fn run(ctx: &mut Ctx) {
     ctx.run::<InMemoryData>(ctx.tier.pick(5_000, 50_000));
     ctx.run::<BacktestsPaused>(ctx.tier.pick(6_000, 100_000));
     ctx.run::<BacktestsInMemory>(ctx.tier.pick(1_500, 20_000));
+    ctx.run_regressions::<SystemAuditModes>();
+    ctx.run::<SystemAuditModes>(ctx.tier.pick(2_000, 30_000));
     // real threads inside: run the cases of this check one at a time
     let saved = ctx.threads;
     ctx.threads = 1;
@@ -841,5 +967,5 @@ pub fn run(ctx: &mut Ctx) {
 }
 
 pub fn replay(ctx: &mut Ctx, doc: &Value) -> bool {
-    ctx.replay::<BacktestsPaused>(doc) || ctx.replay::<BacktestsThreads>(doc) || ctx.replay::<InMemoryData>(doc) || ctx.replay::<BacktestsInMemory>(doc)
+    ctx.replay::<BacktestsPaused>(doc) || ctx.replay::<BacktestsThreads>(doc) || ctx.replay::<InMemoryData>(doc) || ctx.replay::<BacktestsInMemory>(doc) || ctx.replay::<SystemAuditModes>(doc)
 }
